@@ -71,7 +71,15 @@ theorem step_clock (v : Variant) (d : Daemon) (o : Op) (r : Daemon × List Event
   | resume i => simp only [step] at hr; split at hr <;> cases hr; rfl
   | round =>
     simp only [step] at hr; cases hr
-    have := round_clock v d; simp only [clockStep]; rw [this.1, this.2]
+    have := round_clock v { d with wset := [], fset := [] }; simp only [clockStep]; rw [this.1, this.2]
+  | roundw ws fs =>
+    simp only [step] at hr; cases hr
+    have := round_clock v { d with wset := ws, fset := fs }; simp only [clockStep]; rw [this.1, this.2]
+  | allow i => simp only [step] at hr; split at hr <;> cases hr; rfl
+  | get i e =>
+    simp only [step] at hr; split at hr <;> cases hr
+    have := clientData_clock (d.set i { (d.c i) with limited := true }) i (if e then Kind.expect else Kind.get) 1
+    simp only [clockStep]; rw [this.1, this.2]; rfl
 
 /-- an operation that is not legal in the state leaves the clock alone in `clockStep` too -/
 theorem step_none_clock (v : Variant) (d : Daemon) (o : Op) (hr : step v d o = none) :
@@ -84,6 +92,7 @@ theorem step_none_clock (v : Variant) (d : Daemon) (o : Op) (hr : step v d o = n
     · cases hr
     · rename_i hc; simp only [clockStep, hc, if_false]
   | round => simp [step] at hr
+  | roundw ws fs => simp [step] at hr
   | _ => rfl
 
 /-- clock reading and displacement after a history: determined by the clock operations alone -/
